@@ -30,7 +30,7 @@ CHECKS["C04"] = ("fvh-blackbox", "model-based stateful property testing: in-proc
 CHECKS["C07"] = ("fvh-blackbox", "model-based stateful property testing (harness-sequenced multi-connection histories) + concurrent invariant workload + blocked-client-vs-EXEC scenarios",
          "C (c07c): a client blocked in BLPOP/BRPOP while another connection's transaction pushes to its list (LPUSH/RPUSH/EVAL/EVALSHA) and reads it back: EXEC reply = queued commands back to back, blocked client served only afterwards. A: generated multi-connection histories (MULTI, queued commands of every family incl. run-time failures, interleaved commands of other connections, EXEC/DISCARD/disconnect, stray EXEC/DISCARD, nested MULTI) sequenced by the harness and compared with the model: +QUEUED and no effect while queueing (observer dump), EXEC slots = model replies back to back, errors in their slot, state cleared. B: bursts of 6 writers running transfer transactions in three send modes and 6 readers taking single-command and read-only-transaction snapshots under schedule-independent invariants (sum conservation, even log length, final state).",
          "isolation is sampled under real OS schedules, not enumerated; queue-time EXECABORT is not assumed; finding K02 excluded while it reproduces", "3/C07 and 9")
-CHECKS["C08"] = ("fvh-blackbox", "enumerated grid (write command x key state x path) + model-based random histories",
+CHECKS["C08"] = ("fvh-blackbox", "enumerated grid (write command x key state x path, second watchers forgetting their watch) + model-based random histories",
          "every tier runs the full grid of ~70 commands x 8 watched-key states x 4 paths (other connection, same connection, other connection's EXEC, script) plus served blocking pops, deadline expiry before/after a sweeper pass, UNWATCH/DISCARD/EXEC forgetting, and other databases; random WATCH histories on top. The model decides must-abort (state of a watched key changed) and must-execute (no write addressed a watched key); no-op writes are not asserted.",
          "script-path commands are applied to the model leniently (their replies are C12's business) and end dataset comparison for that case", "3/C08")
 CHECKS["C18"] = ("fvh-blackbox", "model-based stateful property testing with a 16-database model and all-database dumps",
@@ -53,7 +53,7 @@ CHECKS["C17"] = ("fvh-blackbox", "enumeration of command forms x connection cont
          "quick tier covers every form in a rotating subset of the seven contexts (all of them for the attack forms); thorough is exhaustive over forms x contexts", "3/C17")
 
 CHECKS["C09"] = ("fvh-blackbox", "generated-dataset round trip through a real restart (and through the library), canonical dump differential with clock-bracketed TTL intervals",
-         "generated datasets (six types, sizes at the 6/14/32-bit length-encoding boundaries, binary and marker-equal strings, float-edge scores, u64-edge stream IDs, 16 databases, TTLs shorter and longer than the downtime) are loaded into a real server, dumped, SAVEd, the process is killed -9, kept down for a generated time and restarted on the same directory; the second dump must equal the first, PTTLs must lie in the interval the harness clock allows, keys whose deadline provably passed must be absent. The same datasets go through RdbEngine::save/load in-process at 10x the volume.",
+         "generated datasets (six types, sizes at the 6/14/32-bit length-encoding boundaries, binary and marker-equal strings, float-edge scores, u64-edge stream IDs, 16 databases, TTLs shorter and longer than the downtime and up to 100 years) are loaded into a real server (in a third of the cases SAVEd, then modified through paths a change counter can forget), dumped, SAVEd, the process is killed -9, kept down for a generated time and restarted on the same directory; the second dump must equal the first, PTTLs must lie in the interval the harness clock allows, keys whose deadline provably passed must be absent. The same datasets go through RdbEngine::save/load in-process at 10x the volume.",
          "sizes up to 70000 elements / bytes (2^20 and the >= 4 GiB path are out of reach); findings K07/K08 excluded while they reproduce", "3/C09")
 
 CHECKS["C10"] = ("fvh-inproc", "exhaustive fault injection over the write calls of a save + harness-owned save/writer races through sync-point hooks + prefix/substitution enumeration of damaged dumps",
